@@ -473,6 +473,9 @@ def limit_bodies(rng: random.Random, quick: bool):
     out.append(("multipart", b, build_body([(b"f", None, None, b"\r\n" * 60)], b, lead=False)))
     out.append(("multipart", b, build_body([(b"f", None, None, b"\r" * 50 + b"\n" * 50)], b, lead=False)))
     out.append(("multipart", b, b"preamble " * 30 + build_body([(b"f", None, None, b"v")], b)))
+    # undelimited input after the closing delimiter (epilogue), shorter and longer than the memory limits in use
+    out.append(("multipart", b, build_body([(b"f", None, None, b"v")], b) + b"epilogue " * 30))
+    out.append(("multipart", b, build_body([(b"f", None, None, b"v")], b) + b"z" * 5000))
     for n in ([0, 1, 10, 11, 100] if quick else [0, 1, 10, 11, 100, 1000, 70000]):
         pairs = []
         while sum(len(k) + len(v) + 2 for k, v in pairs) < n:
